@@ -125,22 +125,38 @@ fn judge_reject(rec: &mut Rec, st: &Stamp, what: &'static str) {
     rec.bin_s(format!("reject/{}", what));
     let text = st.text();
     rec.nontrivial(hash_str(&text));
-    debug_assert!(!st.fields_valid());
-    let r = trap(|| DateTime::parse_rfc3339(&text).map(|dt| trap(|| read(&dt)).unwrap_or(0)));
-    let wit = |obs: Value| json!({"text": text, "out_of_range_field": what, "observed": obs});
-    match r {
-        Err(p) => rec.violation(format!("C13|reject|parse_rfc3339|panic|{},{}", p.class, p.site()), || wit(p.to_json())),
-        Ok(Ok(i)) => rec.violation(format!("C13|reject|parse_rfc3339|accepted-out-of-range|{}", what), || wit(json!({"instant": show(i)}))),
-        Ok(Err(e)) => {
-            if !matches!(e, AstrolabeError::InvalidFormat(_) | AstrolabeError::OutOfRange(_)) {
-                rec.violation("C13|reject|parse_rfc3339|odd-error".to_string(), || wit(json!(format!("{:?}", e))));
+    // both reading routes of the statement's API: the inherent function and FromStr (str::parse)
+    for route in ["parse_rfc3339", "from_str"] {
+        let r = trap(|| if route == "from_str" { text.parse::<DateTime>() } else { DateTime::parse_rfc3339(&text) }.map(|dt| trap(|| read(&dt)).unwrap_or(0)));
+        let wit = |obs: Value| json!({"text": text, "route": route, "out_of_range_field": what, "observed": obs});
+        match r {
+            Err(p) => rec.violation(format!("C13|reject|{}|panic|{},{}", route, p.class, p.site()), || wit(p.to_json())),
+            Ok(Ok(i)) => rec.violation(format!("C13|reject|{}|accepted-out-of-range|{}", route, what), || wit(json!({"instant": show(i)}))),
+            Ok(Err(e)) => {
+                if !matches!(e, AstrolabeError::InvalidFormat(_) | AstrolabeError::OutOfRange(_)) {
+                    rec.violation(format!("C13|reject|{}|odd-error", route), || wit(json!(format!("{:?}", e))));
+                }
             }
         }
     }
+    let wit = |obs: Value| json!({"text": text, "out_of_range_field": what, "observed": obs});
     if rec.want_sample() {
         rec.sample(|| wit(json!("(see verdict)")));
     }
 }
+
+/// month, day, hour, minute or zone field outside its range (the year and second 60 are judged elsewhere)
+fn field_out_of_range(st: &Stamp) -> bool {
+    let y = if st.year == 0 { 4 } else { st.year as i64 }; // month lengths of a leap year when the year itself is not judged
+    st.month == 0 || st.month > 12 || st.day == 0 || st.day > cal::month_len(cal::astro_year(y), st.month) || st.hour > 23 || st.minute > 59 || st.second > 60
+        || matches!(st.offset, Some((_, h, m)) if h > 23 || m > 59)
+}
+
+const LEAP_SECOND_DAYS: [(u32, u32, u32); 27] = [
+    (1972, 6, 30), (1972, 12, 31), (1973, 12, 31), (1974, 12, 31), (1975, 12, 31), (1976, 12, 31), (1977, 12, 31), (1978, 12, 31), (1979, 12, 31),
+    (1981, 6, 30), (1982, 6, 30), (1983, 6, 30), (1985, 6, 30), (1987, 12, 31), (1989, 12, 31), (1990, 12, 31), (1992, 6, 30), (1993, 6, 30), (1994, 6, 30),
+    (1995, 12, 31), (1997, 6, 30), (1998, 12, 31), (2005, 12, 31), (2008, 12, 31), (2012, 6, 30), (2015, 6, 30), (2016, 12, 31),
+];
 
 pub fn run(ctx: &Ctx) -> PropResult {
     let lo = 0i128; // 0001-01-01T00:00:00Z
@@ -197,17 +213,81 @@ pub fn run(ctx: &Ctx) -> PropResult {
             judge_reject(rec, &m, what);
         }
     }));
+    // several fields out of range at once (2–4 single-field mutations applied in a row), also on year 0000
+    wls.push(Workload::cases("read_side_several_fields_out_of_range", ctx.count(60_000, 2_000_000), |rec, _, rng| {
+        let mut st = gen_valid(rng);
+        let k = 2 + rng.below(3);
+        for _ in 0..k {
+            st = mutate_field(rng, &st).0;
+        }
+        if rng.chance(1, 4) {
+            st.year = 0;
+        }
+        if field_out_of_range(&st) {
+            judge_reject(rec, &st, "several-fields");
+        }
+    }));
+    // sentinel grid: every field from {all zeros, a typical valid value, all nines} — "0000-00-00T00:00:00Z" (the SQL
+    // zero date), "9999-99-99T99:99:99Z" and everything between — x zone Z / +00:00 / -00:00 / +99:99 x fraction none /
+    // .000 / .999999999.  Whatever has a month, day, hour, minute or zone field outside its range must be refused.
+    wls.push(Workload::cases("read_side_sentinel_grid", 729 * 4 * 3, |rec, idx, _| {
+        let pickf = |k: u64, zero: u32, typ: u32, nines: u32| match k % 3 { 0 => zero, 1 => typ, _ => nines };
+        let mut x = idx;
+        let year = pickf(x, 0, 2022, 9999); x /= 3;
+        let month = pickf(x, 0, 5, 99); x /= 3;
+        let day = pickf(x, 0, 2, 99); x /= 3;
+        let hour = pickf(x, 0, 15, 99); x /= 3;
+        let minute = pickf(x, 0, 30, 99); x /= 3;
+        let second = pickf(x, 0, 20, 99); x /= 3;
+        let offset = match x % 4 { 0 => None, 1 => Some(('+', 0, 0)), 2 => Some(('-', 0, 0)), _ => Some(('+', 99, 99)) }; x /= 4;
+        let frac = match x % 3 { 0 => "", 1 => "000", _ => "999999999" }.to_string();
+        let st = Stamp { year, month, day, hour, minute, second, frac, offset };
+        if field_out_of_range(&st) {
+            judge_reject(rec, &st, "sentinel-grid");
+        } else if st.fields_valid() {
+            judge_read(rec, &st, idx % 2 == 0);
+        }
+    }));
+    // second 60: RFC 3339 admits it for an inserted leap second, i.e. when the UTC reading is 23:59:60.  A text whose
+    // second is 60 but whose UTC time of day is not 23:59 is a leap second under no reading and must be refused (61+
+    // always).  On notable dates (the 27 leap-second days among them) and random dates, local and UTC readings.
+    wls.push(Workload::cases("read_side_second_60", ctx.count(30_000, 600_000), |rec, idx, rng| {
+        let mut st = gen_valid(rng);
+        if idx % 2 == 0 {
+            let (y, m, d) = *rng.pick(&LEAP_SECOND_DAYS);
+            st.year = y; st.month = m; st.day = d;
+        }
+        match rng.below(4) {
+            0 => { st.hour = 23; st.minute = 59; }
+            1 => { st.hour = rng.below(24) as u32; st.minute = 59; }
+            2 => { st.hour = 23; st.minute = rng.below(60) as u32; }
+            _ => {}
+        }
+        st.second = if rng.chance(1, 5) { *rng.pick(&[61u32, 62, 99]) } else { 60 };
+        if rng.chance(1, 3) {
+            st.offset = None;
+        }
+        // UTC time of day of hh:mm (the date may roll, only the clock matters here)
+        let utc_min = (st.hour as i64 * 60 + st.minute as i64 - st.offset_secs() as i64 / 60).rem_euclid(1440);
+        if st.second > 60 {
+            judge_reject(rec, &st, "second>60");
+        } else if utc_min != 23 * 60 + 59 {
+            judge_reject(rec, &st, "second=60-not-at-23:59-UTC");
+        } else {
+            rec.bin("second=60-at-23:59-UTC(not-judged)");
+        }
+    }));
     // write side for values carrying Offset::Local: format_rfc3339 must write the instant under the offset the
     // (hooked) system zone resolves to now — also right after the zone changed (compared with the Fixed twin)
     wls.push(Workload::cases("offset_local_under_a_changing_zone", ctx.count(3_000, 30_000), |rec, _, rng| super::localzone::zone_switch_case(rec, rng, "C13")));
     let out = run_workloads(ctx, wls);
     let mut meta = PropMeta::default();
-    meta.rule = "write: local instants in years 0001–9999 (both ends ±2 d, month ends, second/centisecond boundaries, uniform) x whole-minute offsets (0, ±1 min, ±23:59, half/quarter hours, uniform) x 5 precisions; the output must be accepted by a hand-written recogniser of the RFC 3339 date-time ABNF, carry exactly the precision's fraction digits, and denote the value's instant truncated to the precision and its offset. read: ABNF-generated timestamps (valid calendar date, every fraction length 0..=40 x {all 0, all 9, random}, Z / ±hh:mm incl. -00:00 and ±23:59) through parse_rfc3339 and FromStr — instant, nanoseconds (fraction truncated to 9 digits) and offset must match the reference reader; single-field mutations (month 00/13+, day 00/32+/> month length, Feb 29 in a common year, hour 24+, minute 60+, offset hour 24+, offset minute 60+) must be rejected. Not judged: second 60, lower-case t/z, wrong separators, year 0000. Every case non-trivial; distinct by hash of the text / (value, offset, precision). Sub-second values next to powers of ten on the write side; format_rfc3339 of Offset::Local values under a changing hooked zone.".into();
+    meta.rule = "write: local instants in years 0001–9999 (both ends ±2 d, month ends, second/centisecond boundaries, uniform) x whole-minute offsets (0, ±1 min, ±23:59, half/quarter hours, uniform) x 5 precisions; the output must be accepted by a hand-written recogniser of the RFC 3339 date-time ABNF, carry exactly the precision's fraction digits, and denote the value's instant truncated to the precision and its offset. read: ABNF-generated timestamps (valid calendar date, every fraction length 0..=40 x {all 0, all 9, random}, Z / ±hh:mm incl. -00:00 and ±23:59) through parse_rfc3339 and FromStr — instant, nanoseconds (fraction truncated to 9 digits) and offset must match the reference reader; single-field mutations (month 00/13+, day 00/32+/> month length, Feb 29 in a common year, hour 24+, minute 60+, offset hour 24+, offset minute 60+) must be rejected. Rejection is read through parse_rfc3339 AND FromStr. Several fields out of range at once (2–4 mutations, also on year 0000); a sentinel grid of every field from {all zeros, typical, all nines} x zones x fractions (the SQL zero date 0000-00-00T00:00:00Z … 9999-99-99T99:99:99Z); second 60 where the UTC reading is not 23:59:60 (a leap second under no reading; on the 27 leap-second days and random days) and seconds 61+ must be refused. Not judged: second 60 at 23:59 UTC, lower-case t/z, wrong separators, year 0000 with all other fields in range. Every case non-trivial; distinct by hash of the text / (value, offset, precision). Sub-second values next to powers of ten on the write side; format_rfc3339 of Offset::Local values under a changing hooked zone.".into();
     meta.required_bins = vec![
         "local-twin/zone-switch-judged",
         "write/Seconds", "write/Centis", "write/Millis", "write/Micros", "write/Nanos", "write/offset-zero", "write/offset-negative", "write/offset-positive",
         "read/no-fraction", "read/fraction-1..8", "read/fraction-9", "read/fraction-10..19", "read/fraction-20..40", "read/Z", "read/-00:00", "read/negative-offset", "read/positive-offset", "read/utc-midnight-negative-offset", "read/utc-midnight-positive-offset",
-        "reject/month=00", "reject/month>12", "reject/day=00", "reject/day>31", "reject/day>month-length", "reject/hour>=24", "reject/minute>=60", "reject/offset-hour>=24", "reject/offset-minute>=60", "reject/feb29-common-year",
+        "reject/month=00", "reject/month>12", "reject/day=00", "reject/day>31", "reject/day>month-length", "reject/hour>=24", "reject/minute>=60", "reject/offset-hour>=24", "reject/offset-minute>=60", "reject/feb29-common-year", "reject/several-fields", "reject/sentinel-grid", "reject/second>60", "reject/second=60-not-at-23:59-UTC",
     ];
     meta.assumptions = vec!["the reference reader/recogniser in model/rfc3339.rs is written from the RFC 3339 ABNF".into()];
     Ok((meta, out))
